@@ -10,7 +10,7 @@ PROPS_MODULE = "C16_Properties"
 THEOREMS = ["C16_total", "C16_sound", "C16_rejects", "C16_rejects_unparseable_url", "C16_rejects_mixed_schemes",
             "C16_rejects_unusable_pem", "C16_rejects_unknown_reference", "C16_rejects_bad_flowcontrol",
             "C16_model_meets_spec", "C16_sound_refuted_without_insecure_ca_check",
-            "C16_sound_update", "C16_sound_remote", "C16_remote_refuted_without_stale_remote_fix",
+            "C16_sound_usable", "C16_sound_update", "C16_sound_remote", "C16_remote_refuted_without_stale_remote_fix",
             "C16_remote_refuted_without_stale_status_fix", "C16_remote_refuted_without_no_limiter_fix"]
 EVAL = "C16_Check.eval_x"
 CLAUSES = ["agree", "total", "sound", "rejects", "sound_update", "sound_remote"]
@@ -54,6 +54,30 @@ EP_ODD = ["https://%zz", "http://", "https://", "ftp://x", "https://a b", "HTTPS
           "https://127.0.0.1:6443?x=1#f", "https://u:p@127.0.0.1:6443", "https://[::1]:6443", "https://[::1",
           "https://127.0.0.1:99999", "https://127.0.0.1:abc", "http:///path", "https:///", " https://127.0.0.1:1",
           "https://127.0.0.1:6443\n", "https://127.0.0.1:6443/%zz", "http://%41:1", "https://127.0.0.1:6443/a b"]
+# NEAR-MISS references: strings a human would call "the same endpoint / schema" but that are different strings.
+# The data plane resolves references by exact string, so validation must compare exactly as well.
+def near_eps(ep):
+    sch, rest = ep.split("://", 1)
+    out = [ep + "/", ep + "//", " " + ep, ep + " ", sch.upper() + "://" + rest, ep.replace("//127", "///127")]
+    if ep.endswith("/"):
+        out.append(ep[:-1])
+    if "localhost" in ep:
+        out.append(ep.replace("localhost", "LOCALHOST"))
+    if rest.endswith(":443"):
+        out.append(ep[:-4])
+    if ":" not in rest:
+        out.append(ep + (":443" if sch == "https" else ":80"))
+    return [x for x in out if x != ep]
+
+
+EP_NEAR_BASES = ["https://localhost:6443", "https://127.0.0.1:443", "https://127.0.0.4", "http://127.0.0.1:80",
+                 "https://127.0.0.1:6443/"]
+
+
+def near_name(n):
+    return [n.upper(), n + " ", " " + n, n.capitalize()]
+
+
 KEYS = ["none", "empty", "keyA", "keyB", "keyBad", "garbage"]
 CERTS = ["none", "empty", "certA", "certB", "certBad", "trunc", "garbage"]
 CAS = ["none", "empty", "ca", "ca2", "cakey", "caBad", "garbage", "certA"]
@@ -158,6 +182,18 @@ def corpus():
     cs.append(mut(cc__qps=I32MAX, cc__burst=I32MAX, cc__div=I32MIN))
     cs.append(mut(ss__names=["C1", "c1", "x y", ""]))
     cs.append(mut(policies__0__subset=["https://nope"]))
+    # near-miss references (seed C16-c: a trailing slash was tolerated by validation only)
+    for ep in [EP_HTTPS[0], "https://localhost:6443", "https://127.0.0.1:443", "https://127.0.0.4"]:
+        for nm in near_eps(ep):
+            cs.append(mut(servers=[srv(ep), srv(EP_HTTPS[1])], policies__0__subset=[nm]))        # subset is the variant
+            cs.append(mut(servers=[srv(nm), srv(EP_HTTPS[1])], policies__0__subset=[ep]))        # server is the variant
+    cs.append(mut(servers=[srv("http://127.0.0.1:18080")], cc__ca="none", cc__token="none",
+                  policies__0__subset=["http://127.0.0.1:18080/"]))
+    cs.append(mut(servers=[srv(EP_HTTPS[0] + "/"), srv(EP_HTTPS[0])], policies__0__subset=[EP_HTTPS[0] + "/"]))   # both exist
+    for nm in near_name("s1"):
+        cs.append(mut(policies__0__schema=nm))
+        cs.append(mut(schemas__0__name=nm))
+    cs.append(mut(schemas=[schema("s1", "local", mri=10), schema("S1", "local", mri=5)], policies__0__schema="S1"))
     cs.append(mut(policies__0__subset=[EP_HTTPS[1], EP_HTTPS[1]]))
     cs.append(mut(policies__0__schema="zz"))
     cs.append(mut(policies__0__rules=0))
@@ -246,7 +282,7 @@ def good_schema(rng, name):
 
 def well_formed(rng):
     https = rng.chance(3, 4)
-    eps = rng.sample(EP_HTTPS if https else EP_HTTP, rng.randint(1, 3))
+    eps = rng.sample((EP_HTTPS + EP_NEAR_BASES[:3] + EP_NEAR_BASES[4:]) if https else (EP_HTTP + [EP_NEAR_BASES[3]]), rng.randint(1, 3))
     o = base()
     o["name"] = rng.choice(NAMES_OK)
     o["gate"] = rng.choice(GATES_OK)
@@ -294,7 +330,8 @@ def rand_schema(rng):
 
 MUTATORS = ["name", "gate", "ep", "addep", "delep", "insecure", "token", "cckey", "cccert", "ccca", "ccnum", "sskey",
             "sscert", "ssca", "schema", "addschema", "delschema", "schemafield", "logging", "polsubset", "polschema",
-            "polrules", "polstrategy", "pollog", "delpol"]
+            "polrules", "polstrategy", "pollog", "delpol", "nearsubset", "nearsubset", "nearserver", "nearschema",
+            "nearschemaname", "subsetok"]
 
 
 def mutate(rng, o):
@@ -349,6 +386,31 @@ def mutate(rng, o):
             s[f] = rng.choice([None, [rng.choice(NUMS), rng.choice(NUMS)]])
     elif k == "logging":
         o["logging"] = rng.choice(LOGM)
+    elif k == "nearsubset" and o["policies"] and o["servers"]:
+        # a subset entry that differs from a server only by a near-miss
+        e = rng.choice(o["servers"])["ep"]
+        if "://" in e:
+            p = rng.choice(o["policies"])
+            nm = rng.choice(near_eps(e))
+            p["subset"] = [nm] if rng.chance(1, 2) else p["subset"] + [nm]
+    elif k == "nearserver" and o["servers"]:
+        # the server is the variant, the subsets keep the plain string
+        sv = rng.choice(o["servers"])
+        if "://" in sv["ep"]:
+            old = sv["ep"]
+            sv["ep"] = rng.choice(near_eps(old))
+            if o["policies"] and rng.chance(1, 2):
+                rng.choice(o["policies"])["subset"] = [old]
+    elif k == "subsetok" and o["policies"] and o["servers"]:
+        rng.choice(o["policies"])["subset"] = rng.sample([x["ep"] for x in o["servers"]], rng.randint(1, len(o["servers"])))
+    elif k == "nearschema" and o["policies"] and o["schemas"]:
+        n = rng.choice(o["schemas"])["name"]
+        if n:
+            rng.choice(o["policies"])["schema"] = rng.choice(near_name(n))
+    elif k == "nearschemaname" and o["schemas"]:
+        sc = rng.choice(o["schemas"])
+        if sc["name"]:
+            sc["name"] = rng.choice(near_name(sc["name"]))
     elif o["policies"]:
         p = rng.choice(o["policies"])
         if k == "polsubset":
@@ -560,14 +622,18 @@ DUMMY_FACTS = ("(Build_facts true GAbsent [] (Build_clientcfg false false false 
 
 
 RRES = {"ok": "ROk", "err": "RErr", "panic": "RPanic", "skip": "RSkip"}
-DUMMY_CASE = "(Build_case %s (Build_obs (VErrs []) Err false Panic Panic Panic))" % DUMMY_FACTS
+DUMMY_CASE = "(Build_case %s (Build_obs (VErrs []) Err false Panic Panic Panic None))" % DUMMY_FACTS
 
 
 def single_term(case, obs, ids, names):
     v = "VPanic" if obs["validate"] != "ok" else "(VErrs %s)" % clist(classify(obs["errs"]))
+    pols = "None"
+    if obs.get("pols") is not None:
+        pols = "(Some %s)" % clist(["(%s, %d, %s)" % (cbool(x["matched"]), x["known"], cbool(x["fc_default"]))
+                                    for x in obs["pols"]])
     return ("(Build_case %s (Build_obs %s %s %s %s %s "
-            "%s))" % (facts_term(case, obs["facts"], ids, names), v, ARES[obs["admit"]], cbool(obs["admit_gate_err"]),
-                      ARES[obs["create"]], ARES[obs["ctrl"]], ARES[obs["lim"]]))
+            "%s %s))" % (facts_term(case, obs["facts"], ids, names), v, ARES[obs["admit"]], cbool(obs["admit_gate_err"]),
+                         ARES[obs["create"]], ARES[obs["ctrl"]], ARES[obs["lim"]], pols))
 
 
 def pem_same(a, b):
@@ -609,6 +675,10 @@ def stats(case, obs):
             "admit/create:%s/%s" % (obs["admit"], obs["create"])]
     for c in set(re.sub(r"[() 0-9]", "", x) for x in classify(obs["errs"])):
         labs.append("class:" + c)
+    if obs.get("pols") is not None:
+        for x in obs["pols"]:
+            labs.append("policy:%s/known=%s/%s" % ("matched" if x["matched"] else "unmatched", min(x["known"], 2),
+                                                   "default-fc" if x["fc_default"] else "own-fc"))
     for i, r in enumerate(obs.get("rem", [])):
         labs.append("remote-round%d:%s/%s/%s/%s" % (i, r["sync"], r["count"], r["alloc"], r["load"]))
     if case.get("v2") and obs.get("upd"):
